@@ -85,6 +85,62 @@ func c09Check(ctx *vfCtx, c c09Case) {
 	if vfCatch(ctx, "C09", func() { needed = StateNeededForAuth([]PDU{final}).Tuples() }) {
 		return
 	}
+	// the bulk form (state resolution hands over whole batches): the state needed for a batch is the
+	// union of what each of its events needs, whatever the order and however alike the events are
+	{
+		batch := []PDU{final}
+		for _, st := range c.Steps {
+			if e, _, ok := parse(st.Event); ok {
+				batch = append(batch, e)
+			}
+		}
+		if len(batch) > 1 {
+			tupSet := func(list []PDU) (map[StateKeyTuple]bool, bool) {
+				out := map[StateKeyTuple]bool{}
+				var tl []StateKeyTuple
+				if vfCatch(ctx, "C09/state-needed-batch", func() { tl = StateNeededForAuth(list).Tuples() }) {
+					return nil, false
+				}
+				for _, k := range tl {
+					out[k] = true
+				}
+				return out, true
+			}
+			union := map[StateKeyTuple]bool{}
+			for _, e := range batch {
+				one, ok := tupSet([]PDU{e})
+				if !ok {
+					return
+				}
+				for k := range one {
+					union[k] = true
+				}
+			}
+			rev := make([]PDU, len(batch))
+			for i, e := range batch {
+				rev[len(batch)-1-i] = e
+			}
+			ctx.Class("state-needed/batch")
+			for _, order := range [][]PDU{batch, rev} {
+				got, ok := tupSet(order)
+				if !ok {
+					return
+				}
+				for k := range union {
+					if !got[k] {
+						ctx.Fail("C09/state-needed-for-a-batch-is-not-the-union", "StateNeededForAuth over %d events does not name (%s, %q), which one of them needs on its own", len(order), k.EventType, k.StateKey)
+						return
+					}
+				}
+				for k := range got {
+					if !union[k] {
+						ctx.Fail("C09/state-needed-for-a-batch-is-not-the-union/extra", "StateNeededForAuth over %d events names (%s, %q), which none of them needs on its own", len(order), k.EventType, k.StateKey)
+						return
+					}
+				}
+			}
+		}
+	}
 	isNeeded := func(e PDU) bool {
 		for _, k := range needed {
 			if e.Type() == k.EventType && e.StateKeyEquals(k.StateKey) {
